@@ -289,7 +289,10 @@ func last(s string) byte {
 }
 
 func exec(in string) string {
-	kind, rest, _ := strings.Cut(in, " ")
+	kind, rest, ok := strings.Cut(in, " ")
+	if !ok { // inputs printed by the extra steps use '_' for the blank
+		kind, rest, _ = strings.Cut(in, "_")
+	}
 	switch kind {
 	case "S":
 		if rest == "" {
@@ -699,7 +702,7 @@ func main() {
 				}
 			})
 			// random histories; a part of them short (small states are where index bugs show first)
-			for i := 0; i < g.Scale(5000, 26000); i++ {
+			for i := 0; i < g.Scale(5000, 20000); i++ {
 				keys := tr.Pick(g.R, []int{3, 6, 20, 100, 1000})
 				h := newHist(g, dup, keys)
 				target := g.R.Range(20, 90)
